@@ -59,7 +59,7 @@ def trio_sim_vs_exec(ck, prog, kinds, oi, ai):
         # candidate inputs for native confirmation: a realistic pool
         nice = [z3.Int('b%d' % i) >= 10**9 for i in range(3)] + [z3.Int('b%d' % i) <= 10**11 for i in range(3)] + [z3.Int('f%d' % i) <= 10**6 for i in range(3)] + \
                [z3.Int('offer') >= 10**7, z3.Int('offer') <= 10**9, z3.Int('b0') != z3.Int('b1'), z3.Int('b1') != z3.Int('b2'), z3.Int('b0') != z3.Int('b2'),
-                z3.Int('initial_amp') == 100, z3.Int('future_amp') == 100, z3.Int('initial_amp_block') == 1, z3.Int('future_amp_block') == 2, z3.Int('height') == 12345,
+                z3.Int('initial_amp') == 10, z3.Int('future_amp') == 1000, z3.Int('initial_amp_block') == 1000, z3.Int('future_amp_block') == 21000, z3.Int('height') == 5000,      # 20% into a ramp: a quote and an execution that do not use the same amplification differ here
                 z3.Int('fee_protocol') == 10**15, z3.Int('fee_swap') == 2 * 10**15, z3.Int('fee_burn') == 10**15, z3.Int('S') == 10**10]
         kw = dict(native_pred=native_differs, nice=nice)
         ck.oblige('C14.trio.sim_eq_exec.return.' + tag, p, total(eff, 'send', A) != g('return_amount'), 'the transfer equals the quoted return', **kw)
